@@ -8,7 +8,10 @@
 #define IN_SCALAR_T size_t
 #endif
 typedef struct { IN_SCALAR_T m_data[DIMS_IN]; } IN_VEC_T;  /* contravariant_input_t::vector_t */
-typedef struct { size_t m_data[DIMS_IN]; } ND_SIZE_T;      /* utility::nd_size<DIMS_IN> */
+#ifndef VERIF_SIZE_T
+#define VERIF_SIZE_T size_t   /* std::size_t; bound to a narrower type only in the width-reduced cells */
+#endif
+typedef struct { VERIF_SIZE_T m_data[DIMS_IN]; } ND_SIZE_T; /* utility::nd_size<DIMS_IN> */
 #endif
 #ifdef DIMS_OUT
 #ifndef OUT_SCALAR_T
